@@ -4,6 +4,10 @@ package main
 //
 //   sq t <mode> <wrap> T… ; E…        -> ok <value> d=<operands left> | err
 //   sq m <site> <nparams> T… ; A…     -> x <expansion> <eq|ne> <dep=ok|dep=…> | err
+//   sq c <mode> n T… ; E…             -> the instructions the template compiled to (not run):
+//        P <value> | M | G <sym> | X | Q | V | H <type>, joined by " , "   | err
+//        (P push, M push marker, G variable lookup, X explode, Q squash, V vectorize, H hashize;
+//        every expression is a plain variable so that it compiles to one G)
 //
 // T (template, prefix tokens): s:<sym> | i:<int> | q:<letters> (a string) | U<k> | S<k>
 //     | ( T* ) | ( T+ . T ) (dotted pair) | [ T* ] | { <type> (T T)* }
@@ -393,7 +397,9 @@ func sqExec(toks []string) string {
 	}
 	switch toks[0] {
 	case "t":
-		return sqExecT(toks[1], toks[2], toks[3:])
+		return sqExecT(toks[1], toks[2], toks[3:], false)
+	case "c":
+		return sqExecT(toks[1], toks[2], toks[3:], true)
 	case "m":
 		n, err := strconv.Atoi(toks[2])
 		if err != nil {
@@ -404,7 +410,7 @@ func sqExec(toks []string) string {
 	return "bad-op"
 }
 
-func sqExecT(mode, wrap string, toks []string) string {
+func sqExecT(mode, wrap string, toks []string, listing bool) string {
 	tmpl, rest := sqSplit(toks)
 	if tmpl == nil {
 		return "bad-op"
@@ -437,6 +443,11 @@ func sqExecT(mode, wrap string, toks []string) string {
 	}
 	var res zygo.Sexp
 	var err error
+	run := func() (zygo.Sexp, error) { return env.Run() }
+	if listing {
+		// compile only; answer with the code
+		run = func() (zygo.Sexp, error) { return zygo.SexpNull, nil }
+	}
 	switch mode {
 	case "sv", "lg", "sh":
 		var prog string
@@ -450,7 +461,9 @@ func sqExecT(mode, wrap string, toks []string) string {
 		if wrap == "w" {
 			prog = "(list 7 " + prog + " 8)"
 		}
-		res, err = env.EvalString(prog + " ")
+		if err = env.LoadString(prog + " "); err == nil {
+			res, err = run()
+		}
 	case "dr":
 		t, e2 := tmpl.sexp(env, ex)
 		if e2 != nil {
@@ -460,12 +473,38 @@ func sqExecT(mode, wrap string, toks []string) string {
 		if wrap == "w" {
 			form = zygo.MakeList([]zygo.Sexp{env.MakeSymbol("list"), &zygo.SexpInt{Val: 7}, form, &zygo.SexpInt{Val: 8}})
 		}
-		res, err = env.EvalExpressions([]zygo.Sexp{form})
+		if err = env.LoadExpressions([]zygo.Sexp{form}); err == nil {
+			res, err = run()
+		}
 	default:
 		return "bad-op"
 	}
 	if err != nil {
 		return "err"
+	}
+	if listing {
+		var parts []string
+		for _, in := range env.VerifMainListing() {
+			switch in.Kind {
+			case "push":
+				parts = append(parts, "P "+sqCanonStr(in.Expr))
+			case "marker":
+				parts = append(parts, "M")
+			case "get":
+				parts = append(parts, "G "+in.Name)
+			case "explode":
+				parts = append(parts, "X")
+			case "squash":
+				parts = append(parts, "Q")
+			case "vectorize":
+				parts = append(parts, "V")
+			case "hashize":
+				parts = append(parts, "H "+in.Name)
+			default:
+				parts = append(parts, "other:"+strings.ReplaceAll(in.Name, " ", "_"))
+			}
+		}
+		return "code " + strings.Join(parts, " , ")
 	}
 	d, _, _, _ := env.VerifDepths()
 	return "ok " + sqCanonStr(res) + " d=" + strconv.Itoa(d)
@@ -816,6 +855,20 @@ func sqDepth(v *sqv) int {
 	return d
 }
 
+// the same template as a compile-only op: every expression a plain variable
+func (s *sqGen) emitC(mode string, t *sqv) {
+	var parts []string
+	for _, e := range s.ex {
+		v := e.val
+		if v == nil {
+			v = &sqv{kind: '('}
+		}
+		parts = append(parts, "v", v.String())
+	}
+	s.g.Emit("c %s n %s ; %s", mode, t.String(), strings.Join(parts, " "))
+	s.g.Count("c/mode-" + mode)
+}
+
 func (s *sqGen) emitT(mode, wrap string, t *sqv) {
 	var parts []string
 	for _, e := range s.ex {
@@ -885,6 +938,9 @@ func sqExhaustive(g *Gen, maxLen int) {
 					v.kids = append(v.kids, alphabet[i].mk(s, mode))
 				}
 				s.emitT(mode, "n", v)
+				if mode != "lg" {
+					s.emitC(mode, v)
+				}
 				g.Count("exhaustive-small-scope")
 			}
 		}
@@ -1038,6 +1094,9 @@ func sqGenMain(g *Gen) {
 			}
 		}
 		s.emitT(mode, wrap, t)
+		if i%3 == 0 {
+			s.emitC(mode, t)
+		}
 	}
 	// 4. macros: bodies x argument forms x call sites
 	sites := []string{"top", "fn", "let", "loop", "mac"}
